@@ -252,9 +252,11 @@ func (t *Tree) Set(k, v uint64) {
 	root := t.set(1, k, v)
 	if root.isFull() {
 		rightID := t.split(1).pageID()
+		// Re-read the root: the underlying buffer for tree might have changed during split.
+		root = t.node(1)
 		left := t.newNode(root.bits())
 		// Re-read the root and the right node as the underlying buffer for tree might have changed
-		// during split and newNode.
+		// during newNode.
 		root = t.node(1)
 		right := t.node(rightID)
 		copy(left[:keyOffset(maxKeys)], root)
